@@ -153,18 +153,23 @@ def mk_tc(p, via="ctor"):
         tc = PusTc(service=p["service"], subservice=p["subservice"], apid=(p["apid"] + 1) % 2048, app_data=data + b"\x55",
                    seq_count=(p["seq"] + 1) % 16384, source_id=(p["source"] + 1) % 65536, ack_flags=p["ack"])
         tc.pack()
-        if (p["seq"] + p["source"]) % 16 == 3:
+        counted = (p["seq"] + p["source"]) % 16 == 3
+        if counted:
+            # exactly 256 / 65 536 writes to a secondary-header field between two serialisations, the last one being the wanted
+            # value (and no further write to it): a change counter that wraps must not call that "unchanged"
             n = 65536 if (p["seq"] + p["apid"]) % 2 else 256
             for i in range(n - 1):
                 tc.pus_tc_sec_header.source_id = (p["source"] + 2 + i) % 65536
-            tc.pus_tc_sec_header.source_id = (p["source"] + 1) % 65536
-        view = tc.to_space_packet()          # a generic view handed out BEFORE the changes ...
+            tc.pus_tc_sec_header.source_id = p["source"]
+        view = tc.to_space_packet() if not counted else None          # a generic view handed out BEFORE the changes ...
         tc.apid = p["apid"]
         tc.seq_count = p["seq"]
-        tc.source_id = p["source"]
+        if not counted:
+            tc.source_id = p["source"]
         assign_grown(tc, "app_data", data)
         try:
-            view.pack()                      # ... and used after them: it is a view, the telecommand is not its scratch pad
+            if view is not None:
+                view.pack()                  # ... and used after them: it is a view, the telecommand is not its scratch pad
         except Exception:  # noqa
             pass
         return tc
@@ -211,12 +216,13 @@ def mk_tm(p, via="tm"):
             sent[at:at + len(p["data"])] = bytes(p["data"])
             tm.tm_data = bytes(p["data"])
             return tm
+        counted = (p["seq"] + p["msgcnt"]) % 16 == 3
         tm = PusTm(service=p["service"], subservice=p["subservice"], timestamp=bytes(p["stamp"]),
                    source_data=bytes(p["data"]) + b"\x55\x55", apid=(p["apid"] + 1) % 2048, seq_count=p["seq"],
-                   message_counter=p["msgcnt"], space_time_ref=p["timeref"], destination_id=p["dest"],
-                   packet_version=p["ver"])
+                   message_counter=(p["msgcnt"] + 1) % 65536 if counted else p["msgcnt"], space_time_ref=p["timeref"],
+                   destination_id=p["dest"], packet_version=p["ver"])
         tm.pack()
-        if (p["seq"] + p["msgcnt"]) % 16 == 3:
+        if counted:
             # a long-lived object: exactly 256 / 65 536 further writes to a header field between two pack() calls (a counter
             # bumped once per packet), the last one being the wanted value - a change counter that wraps must not call that
             # "unchanged"
@@ -225,11 +231,12 @@ def mk_tm(p, via="tm"):
             for i in range(n - 1):
                 sec.message_counter = (p["msgcnt"] + 1 + i) % 65536
             sec.message_counter = p["msgcnt"]
-        view = tm.to_space_packet()
+        view = tm.to_space_packet() if not counted else None
         tm.apid = p["apid"]
         assign_grown(tm, "tm_data", p["data"])
         try:
-            view.pack()
+            if view is not None:
+                view.pack()
         except Exception:  # noqa
             pass
         return tm
@@ -334,9 +341,14 @@ def op_tc_rt(a):
             t.pus_tc_sec_header.service = (t.service + 1) % 256
         twin(lambda: mk_tc(a["p"], a.get("via", "ctor")), _mut)
         tc = mk_tc(a["p"], a.get("via", "ctor"))
-        sp = tc.to_space_packet().pack()          # before pack(): must not depend on what an earlier pack() left behind
+        view_first = (a["p"]["seq"] + a["p"]["service"]) % 2 == 0
+        # the generic view before pack() (it must not depend on what an earlier pack() left behind) - or, for every other
+        # input, pack() first (the view re-computes the checksum and would repair what a history left in pack()'s own state)
+        sp = tc.to_space_packet().pack() if view_first else None
         raw = owned(tc.pack)
         plen = tc.packet_len
+        if sp is None:
+            sp = tc.to_space_packet().pack()
         if bytes(tc.to_space_packet().pack()) != bytes(sp):
             sp = b"view changes across pack()"
         return after_pack(raw, lambda: rest(tc, raw, plen, sp))
@@ -406,9 +418,12 @@ def op_tm_rt(a):
             t.pus_tm_sec_header.message_counter = (t.pus_tm_sec_header.message_counter + 1) % 65536
         twin(lambda: mk_tm(a["p"], via), _mut)
         tm = mk_tm(a["p"], via)
-        sp = _inner_tm(tm).to_space_packet().pack()
+        view_first = (a["p"]["seq"] + a["p"]["service"]) % 2 == 0
+        sp = _inner_tm(tm).to_space_packet().pack() if view_first else None
         raw = owned(tm.pack)
         plen = _inner_tm(tm).packet_len
+        if sp is None:
+            sp = _inner_tm(tm).to_space_packet().pack()
         if bytes(_inner_tm(tm).to_space_packet().pack()) != bytes(sp):
             sp = b"view changes across pack()"
         return after_pack(raw, lambda: rest(tm, raw, plen, sp, via))
